@@ -106,7 +106,7 @@ class Colliders:
         self.groups = {}
 
     def eff(self, r):
-        return self.default if r == 0 else r
+        return max(1, self.default) if r == 0 else r
 
     def table(self, r):
         R = self.eff(r)
@@ -522,19 +522,31 @@ def run(ctx, replay=None):
         sys.exit(0)
 
     default_range = gen_consts.read_define(REPO, 'src/containers/qhashtbl.c', 'DEFAULT_INDEX_RANGE')
+    ranges = list(RANGES)
+    if default_range < 1:
+        # qhashtbl(0, ...) allocates no slots and divides by zero: the histories for range 0 will show it
+        ctx.broken.append(('obligation:default-range', 'DEFAULT_INDEX_RANGE is %d in the source: the constructor needs a positive default (C05_default_range)' % default_range))
     col = Colliders(default_range)
+    tph = [time.time()]
+    ctx.cov['phase_wall_s'] = {}
+
+    def phase(name):
+        ctx.cov['phase_wall_s'][name] = round(time.time() - tph[0], 1)
+        tph[0] = time.time()
+    phase('build+proofs')
     nhashed = text_checks(ctx, exe)
     nb = 0
     # directed: every removal position in chains of length 4..6, for every range
     hs = []
-    for r in RANGES:
+    for r in ranges:
         hs += directed_removals(rng, col, r)
         hs += directed_twins(rng, r)
     nb += run_histories(ctx, exe, hs, 'directed')
+    phase('directed')
     # random histories: a chain of >= 5 colliding keys + keys elsewhere + special keys
     hists = []
-    nh = 20 if quick else 120
-    for r in RANGES:
+    nh = 40 if quick else 250
+    for r in ranges:
         for i in range(nh):
             nchain = rng.choice([5, 6, 8])
             keys = col.chain_keys(rng, r, nchain)
@@ -547,24 +559,50 @@ def run(ctx, replay=None):
             mix = MIXES[rng.choice(['map', 'map', 'churn', 'walk'])]
             hists.append((['new %d' % r, 'dump 1'], gen_history(rng, 160 if quick else 300, keys, mix)))
     nb += run_histories(ctx, exe, hists, 'random')
+    phase('random')
+    if not quick:
+        # sanitizer build (search for a failing input only): the same random histories under ASan/UBSan
+        aexe, msg = ctx.cc('h_hashtbl_asan', CORE_SRCS, ['h_hashtbl.c'], san='asan')
+        if aexe is None:
+            ctx.notes.append('sanitizer build unavailable: ' + msg[-300:])
+        else:
+            env = dict(os.environ, ASAN_OPTIONS='detect_leaks=1:abort_on_error=0:exitcode=77', UBSAN_OPTIONS='halt_on_error=1:exitcode=77')
+            for hi, (hdr, ops) in enumerate(hs + hists):
+                if hi % 4:
+                    continue
+                rc, o, e = ctx.run([aexe], inp=('\n'.join(hdr + ops) + '\n').encode(), timeout=300, env=env)
+                ctx.count('asan-histories')
+                if rc != 0:
+                    nout = len(o.decode('latin1').splitlines())
+                    op = ops[min(nout, len(ops) - 1)]
+                    what = re.search(r'ERROR: (\w+Sanitizer: [\w-]+)|runtime error: ([^\n]*)', e.decode('latin1'))
+                    sig = {'op': op.split()[0], 'observed': 'sanitizer:' + ((what.group(1) or what.group(2))[:60] if what else 'exit %s' % rc)}
+                    ctx.report('impl-vs-spec', sig, 'hash table: %s under ASan/UBSan: %s' % (sig['op'], sig['observed']),
+                               {'ops': hdr + ops[:nout + 1], 'failing_op': op, 'stderr': e.decode('latin1')[-1500:], 'how': 'clang -fsanitize=address,undefined build of the harness'})
+                    break
+    phase('sanitizer')
     # large histories, structure compared by digest
     big = []
-    for r in ([1, 7, 0] if quick else RANGES):
-        nk = 300 if quick else rng.choice([500, 2000])
+    for r in ([x for x in (1, 7, 0) if x in ranges] if quick else ranges):
+        nk = 300 if quick else rng.choice([300, 1000])
         keys = [b'key-%d' % i for i in range(nk)]
-        big.append((['new %d' % r, 'dump 0'], gen_history(rng, 1500 if quick else 8000, keys, [40, 5, 5, 10, 2, 2, 3, 22, 0.02, 1, 0.3, 0.2])))
+        big.append((['new %d' % r, 'dump 0'], gen_history(rng, 1500 if quick else 5000, keys, [40, 5, 5, 10, 2, 2, 3, 22, 0.02, 1, 0.3, 0.2])))
     nb += run_histories(ctx, exe, big, 'large')
+    phase('large')
     # bounded-exhaustive: all put/remove sequences over K keys of one chain
     ex = []
-    plan = [(1, 3, 5), (2, 3, 4), (3, -3, 4), (1000, 3, 4)] if quick else [(1, 4, 5), (1, 3, 7), (2, 3, 6), (3, 4, 5), (7, -3, 6), (1000, 3, 6), (0, -3, 5)]
+    plan = [(1, 3, 5), (2, 3, 5), (3, -3, 5), (7, 3, 4), (1000, 3, 4), (0, -3, 4)] if quick else [(1, 4, 5), (1, 3, 7), (2, 3, 6), (3, 4, 5), (7, -3, 6), (1000, 3, 6), (0, -3, 5)]
     for r, K, D in plan:
+        if r not in ranges:
+            continue
         ex += exhaustive(col, rng, r, K, D)
     nb += run_histories(ctx, exe, ex, 'exhaustive')
+    phase('exhaustive')
     ctx.cov['exhaustive'] = False
     ctx.cov['exhaustive_note'] = 'all sequences of D put/remove operations over K keys sharing one chain (K<0: |K| keys with identical 32-bit hash), (range,K,D) in %s, each followed by a complete walk; random and directed histories beyond' % (plan,)
     ctx.cov['correspondence_mismatches'] = nb
     ctx.cov['traces_validated_against_impl'] = len(hs) + len(hists) + len(big) + len(ex)
-    ctx.cov['ranges'] = RANGES
+    ctx.cov['ranges'] = ranges
     ctx.cov['default_index_range'] = default_range
     ctx.cov['murmur_keys_compared_c_python_ocaml'] = nhashed
     try:
